@@ -24,6 +24,7 @@ import (
 	"crypto/elliptic"
 	crand "crypto/rand"
 	"crypto/x509"
+	"encoding/base64"
 	"encoding/json"
 	"encoding/pem"
 	"errors"
@@ -90,6 +91,7 @@ type c20HistIn struct {
 	CAs    []int       `json:"cas"` // CA index of every thread (kphist: 1 = the issuer has an e-mail, 0 = none)
 	Script []c20Action `json:"script"`
 	KP     *c20KPIn    `json:"kp,omitempty"`
+	EAB    bool        `json:"eab,omitempty"` // the issuers are configured with an external account (for the production CA)
 }
 
 // c20KPIn: initial condition of a history in configured-account-key mode. File contents: 0 absent,
@@ -178,8 +180,47 @@ type c20Reply struct {
 }
 
 type c20Env struct {
-	cas []*mockca.CA
-	csr *x509.CertificateRequest
+	cas    []*mockca.CA
+	csr    *x509.CertificateRequest
+	eab    bool   // the next history configures its issuers with the external account below
+	eabKey []byte // MAC key of external account c20EABKid, known to both mock CAs (so that both can verify)
+}
+
+const c20EABKid = "c20-external-account"
+
+// c20EABRec: one request that carried an externalAccountBinding, or that created an account.
+type c20EABRec struct {
+	CA       int    `json:"ca"`
+	Creating bool   `json:"creating"` // a newAccount request that is not a look-up
+	Has      bool   `json:"has_eab"`
+	URLCA    int    `json:"url_ca"` // the CA whose newAccount URL the binding names (9: none of them)
+	KidOK    bool   `json:"kid_ok"`
+	MacOK    bool   `json:"mac_ok"`
+	JWKOK    bool   `json:"jwk_ok"`
+	Kind     string `json:"kind"`
+}
+
+func (env *c20Env) eabRecords() []c20EABRec {
+	var out []c20EABRec
+	for c, ca := range env.cas {
+		for _, q := range ca.Requests() {
+			creating := q.Kind == "newAccount" && !q.OnlyReturnExisting
+			if q.EAB == nil && !creating {
+				continue
+			}
+			rec := c20EABRec{CA: c, Creating: creating, Has: q.EAB != nil, URLCA: 9, Kind: q.Kind}
+			if q.EAB != nil {
+				for c2, ca2 := range env.cas {
+					if q.EAB.URL == ca2.Base+"/new-acct" {
+						rec.URLCA = c2
+					}
+				}
+				rec.KidOK, rec.MacOK, rec.JWKOK = q.EAB.Kid == c20EABKid, q.EAB.MacOK, q.EAB.JWKOK
+			}
+			out = append(out, rec)
+		}
+	}
+	return out
 }
 
 var c20ErrInjected = errors.New("injected storage fault")
@@ -194,6 +235,11 @@ func c20NewEnv() *c20Env {
 	key, _ := ecdsa.GenerateKey(elliptic.P256(), crand.Reader)
 	der, _ := x509.CreateCertificateRequest(crand.Reader, &x509.CertificateRequest{DNSNames: []string{"c20.example.com"}}, key)
 	env.csr, _ = x509.ParseCertificateRequest(der)
+	env.eabKey = make([]byte, 32)
+	crand.Read(env.eabKey)
+	for _, ca := range env.cas {
+		ca.SetEABKey(c20EABKid, env.eabKey)
+	}
 	return env
 }
 
@@ -543,6 +589,9 @@ func (r *c20Run) startThread(t int) {
 		TrustedRoots: r.env.cas[0].Roots(), Logger: zap.NewNop(), HTTPProxy: func(*http.Request) (*url.URL, error) { return nil, nil }})
 	cfg.Issuers = []certmagic.Issuer{iss}
 	certmagic.VerifAccountSetEmail(iss, r.email)
+	if r.env.eab {
+		iss.ExternalAccount = &acme.EAB{KeyID: c20EABKid, MACKey: base64.RawURLEncoding.EncodeToString(r.env.eabKey)}
+	}
 	attempts := 0
 	if th.c == 1 {
 		attempts = 1 // doIssue(useTestCA)
@@ -982,7 +1031,7 @@ func c20RunHist(env *c20Env, email string, cas []int, choose c20Chooser, maxStep
 	return r, fin, nil
 }
 
-func c20HistWire(evs []c20Event, fin *c20Final) string {
+func c20HistWire(evs []c20Event, fin *c20Final, eab bool, recs []c20EABRec) string {
 	e := &emit.Enc{}
 	e.Int(0).Len(len(evs))
 	for _, ev := range evs {
@@ -1008,6 +1057,10 @@ func c20HistWire(evs []c20Event, fin *c20Final) string {
 		e.Int(x[0]).Int(x[1]).Int(x[2])
 	}
 	e.Bool(fin.LockFree)
+	e.Bool(eab).Len(len(recs))
+	for _, x := range recs {
+		e.Int(x.CA).Bool(x.Creating).Bool(x.Has).Int(x.URLCA).Bool(x.KidOK && x.MacOK && x.JWKOK)
+	}
 	return e.String()
 }
 
@@ -1339,11 +1392,21 @@ func runC20(tier string, seed int64, outdir string, replay string) error {
 	c20RefHosts, c20RefBad = 0, ""
 	c20NameBad = ""
 
+	histNo := 0
 	addHist := func(class string, email string, cas []int, choose c20Chooser, feats map[string]any) error {
 		if feats == nil {
 			feats = map[string]any{}
 		}
+		// every third history: the issuers have an external account (a replay says which)
+		histNo++
+		env.eab = histNo%3 == 0
+		if v, ok := feats["eab"].(bool); ok {
+			env.eab = v
+		}
 		r, fin, err := c20RunHist(env, email, cas, choose, 600, nil)
+		recs := env.eabRecords()
+		eabOn := env.eab
+		env.eab = false
 		if err != nil {
 			if r != nil && strings.HasPrefix(err.Error(), "PANIC") {
 				// a panic inside doIssue is an observation, not a harness failure: report the history so
@@ -1390,8 +1453,19 @@ func runC20(tier string, seed int64, outdir string, replay string) error {
 			w.Hist("hist_deadlock")
 		}
 		nontrivial := nreg > 0 && (len(nlock) >= 2 || nf+nc+nr+nlost > 0)
-		w.Add(emit.Case{Desc: desc, In: c20HistIn{Kind: "hist", Email: email, CAs: cas, Script: r.script},
-			Obs: map[string]any{"events": evs, "final": fin}, Wire: c20HistWire(r.events, fin), Nontrivial: nontrivial})
+		desc["eab"] = eabOn
+		toTest := 0
+		for _, x := range recs {
+			if x.Has && x.CA == 1 {
+				toTest++
+			}
+		}
+		if eabOn {
+			w.Hist("hist_eab=configured")
+			w.Hist(fmt.Sprintf("hist_eab_sent_to_test_ca=%v", toTest > 0))
+		}
+		w.Add(emit.Case{Desc: desc, In: c20HistIn{Kind: "hist", Email: email, CAs: cas, Script: r.script, EAB: eabOn},
+			Obs: map[string]any{"events": evs, "final": fin, "eab": recs}, Wire: c20HistWire(r.events, fin, eabOn, recs), Nontrivial: nontrivial})
 		w.Hist("kind=hist")
 		w.Hist("class=" + class)
 		w.Hist(fmt.Sprintf("threads=%d", len(cas)))
@@ -1725,7 +1799,7 @@ func runC20(tier string, seed int64, outdir string, replay string) error {
 				return err
 			}
 			cls, _ := rc.Desc["class"].(string)
-			return addHist(cls, in.Email, in.CAs, c20Scripted(in.Script), map[string]any{"replayed": true})
+			return addHist(cls, in.Email, in.CAs, c20Scripted(in.Script), map[string]any{"replayed": true, "eab": in.EAB})
 		case "kphist":
 			var in c20HistIn
 			if err := json.Unmarshal(rc.In, &in); err != nil || in.KP == nil {
